@@ -11,7 +11,13 @@ def sh(cmd, cwd=None):
     return p.returncode, p.stdout.decode(errors="replace")
 for spec in sys.argv[2:]:
     prop, checks = spec.split(":")
-    dirs = sorted(glob.glob("/tmp/mut_%s/_seed/[0-9]*" % prop)) + sorted(glob.glob(os.path.join("/verif/seeded", prop + "-*")))
+    only = None
+    if "@" in prop:                      # C05@4,5 = only the seeds C05-4 and C05-5
+        prop, o = prop.split("@")
+        only = set(o.split(","))
+    dirs = sorted(glob.glob("/tmp/mut_%s/_seed/[0-9]*" % prop)) + sorted(glob.glob(os.path.join(VERIF, "seeded", prop + "-*")))
+    if only:
+        dirs = [d for d in dirs if d.rsplit("-", 1)[-1] in only]
     for sd in dirs:
         patch = os.path.join(sd, "patch.diff")
         rc, o = sh("git apply --check %s" % patch, REPO)
